@@ -193,6 +193,8 @@ def _rows(args):
                 continue
             call, payload, ok = ad
             message = "server says %s #%d" % (row["reason"].lower(), k)
+            if row["reason"] in ("ITEM_NOT_FOUND", "PERMISSION_DENIED") and k % 2 == 0:
+                message = "Could not locate object: %s" % uid        # the wording a real server uses for both reasons
             if row["resp"] == "garbage":
                 body = bytes((i * 31 + 7) % 256 for i in range(40))
                 data = b"\x42\x00\x7b\x01" + struct.pack("!I", len(body)) + body
